@@ -99,11 +99,78 @@ def _term(t, lo, bo):
     return t
 
 
-def inline_call(caller, bi, callee):
+import re as _re
+
+
+def _param_names(types, idx, acc, depth=0):
+    ty = types[idx]
+    if ty.get("k") == "param":
+        acc.add(ty["s"])
+    if depth < 6:
+        for j in ty.get("args", []) or []:
+            if isinstance(j, int):
+                _param_names(types, j, acc, depth + 1)
+        if isinstance(ty.get("inner"), int):
+            _param_names(types, ty["inner"], acc, depth + 1)
+
+
+def _subst_type(types, idx, name, conc, memo, depth=0):
+    """index of the type `idx` with the type parameter `name` replaced by the type `conc`"""
+    if idx in memo:
+        return memo[idx]
+    ty = types[idx]
+    if ty.get("k") == "param":
+        memo[idx] = conc if ty["s"] == name else idx
+        return memo[idx]
+    if depth > 6 or not _re.search(r"\b%s\b" % _re.escape(name), ty.get("s", "")):
+        memo[idx] = idx
+        return idx
+    new = dict(ty)
+    new["s"] = _re.sub(r"\b%s\b" % _re.escape(name), types[conc]["s"], ty["s"])
+    if "args" in ty and ty["args"]:
+        new["args"] = [_subst_type(types, j, name, conc, memo, depth + 1) if isinstance(j, int) else j for j in ty["args"]]
+    if isinstance(ty.get("inner"), int):
+        new["inner"] = _subst_type(types, ty["inner"], name, conc, memo, depth + 1)
+    new["adts"] = sorted(set(ty.get("adts", [])) | set(types[conc].get("adts", [])))
+    types.append(new)
+    memo[idx] = len(types) - 1
+    return memo[idx]
+
+
+def _monomorphise(types, call, callee):
+    """A generic helper with one type parameter called with one type argument: give the copy of its
+    body the concrete types of this call site (owner types of Box::into_raw etc. are read from them)."""
+    substs = [s for s in (call.get("f") or {}).get("substs", []) if isinstance(s, int)]
+    names = set()
+    for l in callee["locals"]:
+        _param_names(types, l[0], names)
+    if len(names) != 1 or len(substs) != 1:
+        return
+    name, conc = next(iter(names)), substs[0]
+    if types[conc].get("k") == "param":
+        return
+    memo = {}
+    for l in callee["locals"]:
+        l[0] = _subst_type(types, l[0], name, conc, memo)
+    for b in callee["blocks"]:
+        t = b["term"]
+        if t["k"] == "call" and "f" in t:
+            f = t["f"] = dict(t["f"])
+            f["substs"] = [_subst_type(types, s, name, conc, memo) if isinstance(s, int) else s for s in f.get("substs", [])]
+            if f.get("self_ty"):
+                f["self_ty"] = _re.sub(r"\b%s\b" % _re.escape(name), types[conc]["s"], f["self_ty"])
+        for st in b["st"]:
+            if st["k"] == "A" and st["r"].get("k") == "cast" and isinstance(st["r"].get("ty"), int):
+                st["r"] = dict(st["r"], ty=_subst_type(types, st["r"]["ty"], name, conc, memo))
+
+
+def inline_call(caller, bi, callee, types=None):
     """Replace the call terminating block `bi` of the fact record `caller` by the body of `callee`."""
     lo = len(caller["locals"])
     bo = len(caller["blocks"])
     call = caller["blocks"][bi]["term"]
+    if types is not None:
+        _monomorphise(types, call, callee)
     # callee locals: parameters become anonymous temporaries
     for i, l in enumerate(callee["locals"]):
         l2 = list(l)
@@ -208,7 +275,7 @@ def apply(d):
                     left[cal["path"]] = left.get(cal["path"], 0) + 1
                     f["blocks"][i]["term"] = dict(f["blocks"][i]["term"], noinline=True)
                     continue
-                inline_call(f, i, copy.deepcopy(cal))
+                inline_call(f, i, copy.deepcopy(cal), d["types"])
                 f.setdefault("inlined", []).append(cal["path"])
                 summary["inlined_calls"] += 1
             # calls marked noinline are skipped in the next round
